@@ -126,6 +126,22 @@ def run(ctx, prefixes):
         vlib.vdrive(ctx, ["txn", "walk", wf, wtr], timeout=3400, ok_codes=(0, 3))
         wres = vlib.validate(ctx, FAM, "TxnModelTrace", "Trace.cfg", wtr, name="val-walk-" + name, timeout=3400, jvm=("-Xmx8g",))
         judge(ctx, wres, wtr, "TwoPL graph schedules " + name, prefixes=prefixes)
+    # real goroutine concurrency: every goroutine runs multi-statement transactions of its own; TLC judges the merged
+    # invocation / return history (TxnHistoryTrace: dirty / stale / own-write / hidden reads, final table, cycles)
+    conc = collections.Counter()
+    for procs in (4, 16):
+        h = os.path.join(ctx.work, "txnconc-p%d.ndjson" % procs)
+        vlib.vdrive(ctx, ["txn", "conc", h, 40 if thorough else 8, 4, 10, procs], timeout=3000, ok_codes=(0, 3),
+                    env={"VERIF_SEED": str(ctx.seed * 23 + procs)})
+        hres = vlib.validate(ctx, FAM, "TxnHistoryTrace", "History.cfg", h, name="val-txnconc-p%d" % procs, timeout=3000)
+        judge(ctx, hres, h, "concurrent transactions (GOMAXPROCS=%d)" % procs, prefixes=prefixes)
+        for e in vlib.read_ndjson(h):
+            if e["ev"] == "SRet":
+                conc[e["k"] + ":" + e["res"][:6]] += 1
+            elif e["ev"] in ("CRet", "ARet"):
+                conc[e["ev"]] += 1
+    if conc["CRet"] == 0 or conc["ARet"] == 0 or conc["upd:ok"] == 0 or conc["upd:abort"] + conc["pread:abort"] == 0:
+        raise Inconclusive("vacuous: concurrent transaction windows produced %s" % dict(conc))
     c = count_events(tr)
     kinds = collections.Counter()
     outcomes = collections.Counter()
@@ -142,12 +158,12 @@ def run(ctx, prefixes):
     ctx.samples.append(dict(kind="one schedule (first events)", events=sched))
     return dict(states=ctx.states, transitions=ctx.transitions, traces_validated_against_impl=ctx.traces,
                 samples=ctx.samples, exhaustive=False, schedules=c["Final"], statements=dict(kinds), outcomes=dict(outcomes),
-                commits=c["Commit"], aborts=c["Abort"], events_validated=ctx.events,
+                commits=c["Commit"], aborts=c["Abort"], events_validated=ctx.events, concurrent_transaction_windows=dict(conc),
                 design_model="TwoPL.tla: 2 transactions x 2 rows x <= 2 statements (thorough 3): point reads through the index, sequential reads, inserts, deletes (mark now, remove at commit), in-place and key-changing updates, commit, abort with LIFO undo; invariants ReadsRight, Acyclic, Agree (heap = index = committed store at quiescence), LocksFree",
                 rule="per pair of programs all interleavings at statement granularity are executed (exhaustive per pair); pairs are seeded")
 
 
-ASSUME = ["statement granularity: one driver goroutine owns all transaction handles, so every statement is atomic; goroutine-level interleavings inside a statement are not explored here",
+ASSUME = ["two parts: (a) statement granularity - one driver goroutine owns all transaction handles, every statement is atomic, interleavings enumerated; (b) real goroutine concurrency - 4 goroutines with transactions of their own, invocation / return stamps from one shared atomic counter, judged without linearization points (dirty = writer had not started to commit when the read returned; stale = overwritten by a transaction that had committed before the read was invoked); in (b) an update always follows a point read of the row in the same transaction, so the overwritten version is observable",
           "keys are kept unique by the workload; phantoms (rows that newly match a predicate) are outside the read sets, as the property documents",
           "TLC trace validation against TxnModel; one open known finding (KF-C04-kupd-hides-row)"]
 
